@@ -61,6 +61,21 @@ class Opaque:
         return "<%s>" % self.tag
 
 
+class FieldRef:
+    """a reference to a field of a struct value (`let Self { a, .. } = self;` binds `a` to `&mut self.a`)"""
+    __slots__ = ("base", "name")
+
+    def __init__(self, base, name):
+        self.base = base
+        self.name = name
+
+    def get(self):
+        return self.base[self.name]
+
+    def set(self, v):
+        self.base[self.name] = v
+
+
 class _Return(Exception):
     def __init__(self, v):
         self.v = v
@@ -210,6 +225,16 @@ class Interp:
                 if v[0] != d.rsplit("::", 1)[-1]:
                     return False
                 return self.bind(pat["subs"][0], v[1], env) if pat.get("subs") else True
+            if isinstance(v, dict) and pat.get("fields") is not None and (pat["path"].get("dk") or "") in ("SelfTy", "Struct"):
+                # a struct pattern: fields bound by name are references into the struct (default binding modes)
+                for fp in pat["fields"]:
+                    if fp["name"] not in v:
+                        raise Unsupported("struct pattern field %s" % fp["name"])
+                    if fp["pat"].get("k") == "bind" and fp["pat"].get("sub") is None:
+                        env[fp["pat"]["name"]] = FieldRef(v, fp["name"])
+                    elif not self.bind(fp["pat"], v[fp["name"]], env):
+                        return False
+                return True
             if not isinstance(v, Var):
                 raise Unsupported("variant pattern %s on %r" % (d, v))
             if v.d != d:
@@ -272,7 +297,8 @@ class Interp:
                 if self.free_opaque:
                     return Opaque(e["name"])
                 raise Unsupported("unbound local %s" % e["name"])
-            return env[e["name"]]
+            v_ = env[e["name"]]
+            return v_.get() if isinstance(v_, FieldRef) else v_
         if k == "path":
             d = e.get("def") or ""
             if d == "core::option::Option::None":
@@ -502,7 +528,14 @@ class Interp:
         if k in ("call", "mcall"):
             return self.call(e, env, depth)
         if k == "struct":
-            return dict((x["name"], self.ev(x["e"], env, depth)) for x in e["fields"])
+            out_ = {}
+            if isinstance(e.get("base"), dict):
+                b_ = self.ev(e["base"], env, depth)
+                if not isinstance(b_, dict):
+                    raise Unsupported("struct base")
+                out_.update(b_)
+            out_.update((x["name"], self.ev(x["e"], env, depth)) for x in e["fields"])
+            return out_
         if k == "closure":
             return ("__closure", e, env)
         if k == "index":
@@ -517,6 +550,25 @@ class Interp:
             except Exception:
                 raise Unsupported("index")
         raise Unsupported("expr kind %s" % k)
+
+    def store(self, target, v, env, depth):
+        """write v to the place a (peeled) expression denotes"""
+        target = H.peel_ref(target)
+        while target.get("k") == "unary" and target.get("op") in ("*", "deref"):
+            target = H.peel_ref(target["e"])
+        if target.get("k") == "local":
+            cur = env.get(target["name"])
+            if isinstance(cur, FieldRef):
+                cur.set(v)
+            else:
+                env[target["name"]] = v
+        elif target.get("k") == "field":
+            base = self.ev(target["base"], env, depth)
+            if not isinstance(base, dict):
+                raise Unsupported("store into field of %r" % (base,))
+            base[target["name"]] = v
+        else:
+            raise Unsupported("store target %s" % target.get("k"))
 
     def cond(self, c, env, depth):
         """condition possibly containing let-chains"""
@@ -679,15 +731,17 @@ class Interp:
                     new_v = self.call_fn(dfn, [], depth + 1)
                 else:
                     raise Unsupported("mem::take of %s" % ty)
-            if target.get("k") == "local":
-                env[target["name"]] = new_v
-            elif target.get("k") == "field":
-                base = self.ev(target["base"], env, depth)
-                if not isinstance(base, dict):
-                    raise Unsupported("mem::take target")
-                base[target["name"]] = new_v
-            else:
-                raise Unsupported("mem::take target")
+            if target.get("k") == "local" and isinstance(old_v, dict) and isinstance(new_v, dict) and not isinstance(env.get(target["name"]), FieldRef):
+                # `mem::take(self)`: the pointee is replaced in place, the old contents are returned
+                moved = dict(old_v)
+                old_v.clear()
+                old_v.update(new_v)
+                return moved
+            self.store(target, new_v, env, depth)
+            return old_v
+        if decl == "core::option::Option::<T>::take" and e.get("k") == "mcall" and not e.get("args"):
+            old_v = self.ev(e["recv"], env, depth)
+            self.store(e["recv"], None, env, depth)
             return old_v
         # a local closure called directly: `let f = |x| ..; f(a)`
         if e.get("k") == "call" and isinstance(e.get("fn_expr"), dict):
@@ -832,6 +886,9 @@ class Interp:
             return v
         if e.get("k") == "mcall" and name in ("push", "pop", "insert", "extend", "append", "clear") and (decl.startswith("alloc::vec::Vec") or c.startswith("alloc::vec::Vec")):
             v = self.ev(e["recv"], env, depth)
+            if name == "clear" and isinstance(v, Opaque) and self.free_opaque and not e.get("args"):
+                self.store(e["recv"], [], env, depth)      # whatever the vector held, it is empty now
+                return ()
             if not isinstance(v, list):
                 raise Unsupported("Vec::%s on %r" % (name, v))
             args = [self.ev(a, env, depth) for a in e.get("args") or []]
